@@ -7,10 +7,18 @@ calculate_delta), plus `InstrumentKind::contract_size`
 `contract_size` argument.
 
 Conventions
-* `Decimal` is `Rat` (exact). `Decimal`'s finite range is *not* baked in: every checked operation
-  takes the representability predicate `fits : Rat → Bool` as a parameter, so the theorems hold for
-  every notion of "overflow"; the driver instantiates it with `decFits` (|r| ≤ 2^96 − 1, the
-  largest `Decimal`). Rounding of results with more than 28 fractional digits is not modelled.
+* `Decimal` is `Rat`. Two models of its arithmetic live side by side:
+  (1) the `fits`-parametric one (`checkedMul fits` …): every checked operation returns the EXACT
+  result or `none`, decided by a representability predicate `fits : Rat → Bool` applied to the exact
+  result (`decFits`: |r| ≤ 2^96 − 1). `fits` decides only overflow of the exact result; this model is
+  the real `Decimal` only where no operation rounds (every intermediate result `decExact`, below).
+  (2) `decMul` (last section): `rust_decimal`'s multiplication with its rounding — exact when the
+  exact product is a `Decimal` (`decExact`), otherwise the product rounded half-to-even to the
+  largest scale ≤ 28 whose mantissa fits 96 bits, `none` when not even scale 0 fits. The driver
+  runs `notionalDec` / `deltaDec`, which are `calculate_quote_notional` / `calculate_delta` over
+  `decMul`. Rounding of `checked_sub` / `checked_div` (percentage difference) is not modelled.
+* `f64` of `CheckHigherThan<f64>` is `F64`: NaN, ±∞ and the finite values as exact rationals (−0.0 is
+  the rational 0: `<=` does not distinguish the two zeros).
 * `PartialOrd::le` of the generic `CheckHigherThan<T>` is the parameter `le : α → α → Bool`, so the
   theorems cover total orders (`Decimal`, integers) and partial ones (`f64` with NaN, `F64` below).
 * A panic of the code (`Decimal`'s unchecked `*` overflows in `calculate_delta`) is `none` of
@@ -111,15 +119,22 @@ def CheckFailHigherThan.message {α : Type} (disp : α → String) (e : CheckFai
 def leRat (a b : Rat) : Bool := decide (a ≤ b)
 def leInt (a b : Int) : Bool := decide (a ≤ b)
 
-/-- A partially ordered `T`: `f64` restricted to NaN and finite values (the finite ones as exact
-rationals). -/
+/-- A partially ordered `T`: `f64` as NaN, the two infinities and the finite values (as exact
+rationals; −0.0 and 0.0 are both `val 0`, `<=` does not distinguish them). -/
 inductive F64 where
   | nan
   | val (r : Rat)
+  | pinf
+  | ninf
   deriving DecidableEq, Repr
 
-/-- `f64`'s `PartialOrd::le`: false as soon as one side is NaN. -/
+/-- `f64`'s `PartialOrd::le`: false as soon as one side is NaN; −∞ is below and +∞ above everything
+else (and `x <= x` for the infinities). -/
 def F64.le : F64 → F64 → Bool
+  | .nan, _ => false
+  | _, .nan => false
+  | .ninf, _ => true
+  | _, .pinf => true
   | .val a, .val b => decide (a ≤ b)
   | _, _ => false
 
@@ -128,22 +143,29 @@ def F64.le : F64 → F64 → Bool
 /-- Largest `Decimal`: 2^96 − 1. -/
 def decMax : Rat := 79228162514264337593543950335
 
-/-- Representable magnitude of a `Decimal` (the driver's instance of `fits`). -/
+/-- Magnitude within the range of a `Decimal` (the 96-bit instance of `fits`): decides overflow of an
+EXACT result only — not whether the value is a `Decimal` (`decExact`) nor what the code stores when
+it is not (`decRound`). -/
 def decFits (r : Rat) : Bool := decide (r.abs ≤ decMax)
 
-/-- `Decimal::checked_mul`: `None` on overflow. -/
+/-- `Decimal::checked_mul` in exact arithmetic: the exact product, `None` when `fits` rejects it. The
+real operation with its rounding is `decMul` (last section); the two agree where the exact product
+is a `Decimal` (`Lemmas/Risk.lean: decMul_exact`, `checkedMul_decFits_of_exact`). -/
 def checkedMul (fits : Rat → Bool) (a b : Rat) : Option Rat :=
   if fits (a * b) then some (a * b) else none
 
-/-- `Decimal::checked_sub`: `None` on overflow. -/
+/-- `Decimal::checked_sub` in exact arithmetic: `None` on overflow of the exact difference (rounding of
+a difference of operands with different scales near the 96-bit edge is not modelled). -/
 def checkedSub (fits : Rat → Bool) (a b : Rat) : Option Rat :=
   if fits (a - b) then some (a - b) else none
 
-/-- `Decimal::checked_div`: `None` on a zero divisor and on overflow. -/
+/-- `Decimal::checked_div` in exact arithmetic: `None` on a zero divisor and on overflow of the exact
+quotient (the rounding of the quotient to 28 digits is not modelled; compared with a tolerance). -/
 def checkedDiv (fits : Rat → Bool) (a b : Rat) : Option Rat :=
   if b = 0 then none else if fits (a / b) then some (a / b) else none
 
-/-- `calculate_quote_notional` (util.rs:16-22): `quantity.checked_mul(price)?.checked_mul(contract_size)`. -/
+/-- `calculate_quote_notional` (util.rs:16-22): `quantity.checked_mul(price)?.checked_mul(contract_size)`,
+in exact arithmetic (over the real multiplication: `notionalDec`). -/
 def calculateQuoteNotional (fits : Rat → Bool) (quantity price contractSize : Rat) : Option Rat :=
   (checkedMul fits quantity price).bind fun qp => checkedMul fits qp contractSize
 
@@ -159,7 +181,8 @@ inductive Side where
   deriving DecidableEq, Repr
 
 /-- `calculate_delta` (util.rs:50-62): `instrument_delta * (quantity_in_kind * contract_size)`,
-negated for `Side::Sell`. `none` = the unchecked `Decimal` multiplication panicked. -/
+negated for `Side::Sell`. `none` = the unchecked `Decimal` multiplication panicked. Exact arithmetic
+(over the real multiplication: `deltaDec`). -/
 def calculateDelta (fits : Rat → Bool) (instrumentDelta contractSize : Rat) (side : Side)
     (quantityInKind : Rat) : Option Rat :=
   (checkedMul fits quantityInKind contractSize).bind fun exposure =>
@@ -224,10 +247,20 @@ def specPasses (limit input : Rat) : Prop := input ≤ limit
 def specCheck (limit input : Rat) : Except (CheckFailHigherThan Rat) Unit :=
   if input ≤ limit then .ok () else .error ⟨limit, input⟩
 
-/-- The documented outcome over `f64`: NaN is never `<=` anything and nothing is `<=` NaN. -/
+/-- Position of a non-NaN `f64` on the extended real line: (−1, _) for −∞, (0, r) for a finite `r`,
+(1, _) for +∞; `none` for NaN. -/
+def F64.ext : F64 → Option (Int × Rat)
+  | .nan => none
+  | .ninf => some (-1, 0)
+  | .val r => some (0, r)
+  | .pinf => some (1, 0)
+
+/-- The documented outcome over `f64` ("passes if input <= limit" on the extended real line): NaN is
+never `<=` anything and nothing is `<=` NaN. -/
 def specCheckF64 (limit input : F64) : Except (CheckFailHigherThan F64) Unit :=
-  match limit, input with
-  | .val l, .val i => if i ≤ l then .ok () else .error ⟨limit, input⟩
+  match limit.ext, input.ext with
+  | some (kl, l), some (ki, i) =>
+    if ki < kl ∨ (ki = kl ∧ i ≤ l) then .ok () else .error ⟨limit, input⟩
   | _, _ => .error ⟨limit, input⟩
 
 /-- Notional value in quote: quantity × price × contract size. -/
@@ -254,5 +287,67 @@ def specDelta (instrumentDelta contractSize : Rat) (side : Side) (quantityInKind
   match side with
   | .buy => instrumentDelta * contractSize * quantityInKind
   | .sell => -(instrumentDelta * contractSize * quantityInKind)
+
+/-! ## `rust_decimal`'s multiplication with its rounding (`ops/mul.rs`, `ops/common.rs: Buf24::rescale`)
+
+A `Decimal` is `± mantissa / 10^scale` with `mantissa < 2^96` and `scale ≤ 28`. `checked_mul`
+(and the unchecked `*`, which panics where `checked_mul` is `None`) multiplies the mantissas (up to
+192 bits), adds the scales and then, if the mantissa exceeds 96 bits or the scale exceeds 28, divides
+by powers of ten — as few as needed —, rounding the last division half-to-even (sticky remainder),
+and reports overflow when the scale is exhausted first. As a function of the exact product `x`:
+the stored value is `rne(|x|·10^e) / 10^e` at the LARGEST `e ≤ 28` with `rne(|x|·10^e) < 2^96`, and
+`None` if there is no such `e ≥ 0` (`decRound`). On the exactly representable products
+(`decExact`) it is the exact product. Validated against the real `Decimal` on the harness (edge
+generator of `harness/src/bin/c03r.rs`, `corpus/C03R/edge.ops`). -/
+
+/-- Largest mantissa of a `Decimal`: 2^96 − 1 (= `decMax` as a natural number). -/
+def decMantMax : Nat := 79228162514264337593543950335
+
+/-- `n / d` rounded to the nearest integer, ties to the even one (`d > 0`). -/
+def rneDiv (n d : Nat) : Nat :=
+  if 2 * (n % d) < d then n / d
+  else if d < 2 * (n % d) then n / d + 1
+  else if (n / d) % 2 = 0 then n / d else n / d + 1
+
+/-- The mantissa of `|x|` at scale `e`, rounded half-to-even: `rne(|x|·10^e)`. -/
+def mantAt (x : Rat) (e : Nat) : Nat := rneDiv (x.num.natAbs * 10 ^ e) x.den
+
+/-- `x` is a `Decimal` of scale `e`: `|x|·10^e` is an integer below 2^96. -/
+def exactAt (x : Rat) (e : Nat) : Bool :=
+  (x.num.natAbs * 10 ^ e) % x.den == 0 && decide (x.num.natAbs * 10 ^ e / x.den ≤ decMantMax)
+
+/-- `x` is exactly representable as a `Decimal`: `x = m / 10^e` for an integer `|m| < 2^96` and a
+scale `e ≤ 28` (`Lemmas/Risk.lean: decExact_iff`). -/
+def decExact (x : Rat) : Bool := (List.range 29).any (exactAt x)
+
+/-- The value `± m / 10^e` with the sign of `x`. -/
+def decValue (x : Rat) (m e : Nat) : Rat :=
+  ((x.num.sign * (m : Int) : Int) : Rat) / (((10 : Int) ^ e : Int) : Rat)
+
+/-- Search for the largest scale `≤ e` at which the rounded mantissa fits 96 bits. -/
+def decRoundFrom (x : Rat) : Nat → Option Rat
+  | 0 => if mantAt x 0 ≤ decMantMax then some (decValue x (mantAt x 0) 0) else none
+  | e + 1 =>
+    if mantAt x (e + 1) ≤ decMantMax then some (decValue x (mantAt x (e + 1)) (e + 1))
+    else decRoundFrom x e
+
+/-- What `rust_decimal` stores for a multiplication whose exact result is `x`; `none` = overflow. -/
+def decRound (x : Rat) : Option Rat := decRoundFrom x 28
+
+/-- `Decimal::checked_mul` (and `*`, with `none` = panic) as the real `rust_decimal` computes it. -/
+def decMul (a b : Rat) : Option Rat := decRound (a * b)
+
+/-- `calculate_quote_notional` (util.rs:16-22) over the real multiplication, in the code's order:
+`quantity.checked_mul(price)?.checked_mul(contract_size)`. -/
+def notionalDec (q p c : Rat) : Option Rat := (decMul q p).bind fun qp => decMul qp c
+
+/-- `calculate_delta` (util.rs:50-62) over the real multiplication, in the code's order:
+`instrument_delta * (quantity_in_kind * contract_size)`; `none` = panic. -/
+def deltaDec (d cs : Rat) (side : Side) (q : Rat) : Option Rat :=
+  (decMul q cs).bind fun exposure =>
+    (decMul d exposure).map fun delta =>
+      match side with
+      | .buy => delta
+      | .sell => -delta
 
 end BarterModel.Risk
